@@ -55,7 +55,7 @@ Theorem C16_printed_integer_is_its_token : forall z rest p f,
 Proof. exact printed_integer_is_its_token. Qed.
 
 (** the round trip. [T] is the type of proper lists, nested to any depth and of any length, whose atoms
-    are exact integers of the i32 range, booleans, characters and plain identifiers; [tval t] is the
+    are exact integers of the i32 range, ratios in lowest terms, booleans, characters and plain identifiers; [tval t] is the
     value, [in_range t] the side condition on the atoms. What [display] prints for such a value is a
     text that the reader reads as exactly one datum, and that datum, quoted, evaluates to the value *)
 Theorem C16_display_read_round_trip : forall t st,
@@ -70,7 +70,13 @@ Theorem C16_printed_tree_is_read_back : forall t rest s,
   exists d s', read_next s = Ok (Some d, s') /\ lrest s' = rest /\ dval d (tval t).
 Proof. exact printed_tree_is_read_back. Qed.
 
-(** not vacuous: (-42 (a #t) #\x 7) satisfies the side condition *)
+(** a printed ratio, followed by a delimiter or the end of the input, is one token: that ratio *)
+Theorem C16_printed_ratio_is_its_token : forall n d rest p f,
+  -2147483648 <= n <= 2147483647 -> 1 <= d <= 2147483647 -> delimited rest ->
+  exists q, lex_next (S f) (print_Z n ++ [47%N] ++ print_Z d ++ rest) p = Ok (Some (TPrim (PRat n d), q), rest, q).
+Proof. exact printed_ratio_is_its_token. Qed.
+
+(** not vacuous: (-42 (a #t -3/4) #\x 7) satisfies the side condition *)
 Theorem C16_a_tree_in_range :
-  in_range (Node [Leaf (AInt (-42)); Node [Leaf (ASym 97%N []); Leaf (ABool true)]; Leaf (AChar 120%N); Leaf (AInt 7)]).
+  in_range (Node [Leaf (AInt (-42)); Node [Leaf (ASym 97%N []); Leaf (ABool true); Leaf (ARat (-3) 4)]; Leaf (AChar 120%N); Leaf (AInt 7)]).
 Proof. exact a_tree_in_range. Qed.
